@@ -332,6 +332,10 @@ class Function:
                 for idx, e in enumerate(b["e"]):
                     if isinstance(e, int):
                         w.setdefault(e, (bid, idx))
+            # jump statements (break/continue/goto, value-less return) are block terminators, not elements
+            for bid, b in self.cfg.blocks.items():
+                if b.get("term") is not None and b.get("termk") in ("BreakStmt", "ContinueStmt", "GotoStmt"):
+                    w.setdefault(b["term"], (bid, len(b["e"])))
             self._where = w
         return self._where
 
